@@ -17,3 +17,14 @@ OBLIGATIONS = [
     Obligation(name="outq_partial_step", func="harness_outq_partial", functions=["lzma_outq_enable_partial_output"],
         desc="lzma_outq_enable_partial_output: only the head buffer's worker, only while unfinished, at most once", bounds_q="<= 2 queued + 1 cached", **OQ),
 ]
+OBLIGATIONS += [
+    Obligation(name="encoder_worker_rely_guarantee", src="worker.c", func="harness_worker", defs=["VLOOP_MEM"], unwind=5, units=[S + "common/common.c"], flags=FL, timeout_q=280, timeout_t=1800,
+        hdefs=["lzma_free=vstub_free", "lzma_next_end=vstub_next_end"],
+        fp_restrict=["worker_encode.function_pointer_call.1/enc_code"],
+        unwindset=[("worker_start", "^0", 4), ("worker_start", "^3", 8), ("worker_encode", "", 6)],
+        functions=["worker_start", "worker_encode", "worker_error"],
+        stubs=["pthread primitives = rely/guarantee stubs: lock/cond_wait first let the main thread change the protected fields in any way its own code allows (state RUN->FINISH, any->STOP/EXIT, in_size grows up to the block size, free list popped, another worker's error), unlock checks the worker's own changes, lock discipline and that every change a waiter depends on was signalled in the same critical section",
+               "Block encoder / header functions = contract stubs with arbitrary outcomes; fairness: after two waits the main thread makes progress; bound: one job, then the main thread requests EXIT"],
+        desc="encoder worker thread (worker_start + worker_encode) for one job from any start state, under every interference of the main thread allowed by the rely: never holds two mutexes, never changes in_size, only moves its state to IDLE and never overrides EXIT, signals thr->cond / coder->cond in the critical section that changes what a waiter reads (no lost wake-up), records only the first error, pushes exactly itself onto the free list at most once per job and ONLY AFTER publishing IDLE, publishes a finished buffer within its allocation, progress totals never decrease, no mutex held or destroyed mutex used at exit",
+        bounds_q="one job + exit; block size 8, output buffer 24; <= 2 unproductive waits"),
+]
